@@ -226,6 +226,42 @@ def _median(a, *args, **k):
     return np.median(a, *args, **k)
 
 
+class SymAngleMax:
+    """max of several arccos values: only `>= limit` style comparisons are needed."""
+
+    def __init__(self, angles):
+        self.angles = angles
+
+    def _any(self, f):
+        rs = [f(a) for a in self.angles]
+        if all(isinstance(r, (bool, np.bool_)) for r in rs):
+            return any(rs)
+        return SymBool(z3.Or(*[core.as_z3_bool(r) for r in rs]))
+
+    def _all(self, f):
+        rs = [f(a) for a in self.angles]
+        if all(isinstance(r, (bool, np.bool_)) for r in rs):
+            return all(rs)
+        return SymBool(z3.And(*[core.as_z3_bool(r) for r in rs]))
+
+    def __ge__(self, o): return self._any(lambda a: a >= o)
+    def __gt__(self, o): return self._any(lambda a: a > o)
+    def __lt__(self, o): return self._all(lambda a: a < o)
+    def __le__(self, o): return self._all(lambda a: a <= o)
+
+
+def _max(a, *args, **k):
+    if active() and not args and not k:
+        try:
+            items = list(a)
+        except TypeError:
+            items = None
+        if items and all(isinstance(x, SymAngle) for x in items):
+            _hit("max(angles)")
+            return SymAngleMax(items)
+    return _wrap(np.max(a, *args, **k))
+
+
 def _sign(x):
     # natural object loop forks through comparisons; keep numpy's own behaviour
     return _wrap(np.sign(x))
@@ -250,7 +286,7 @@ class NPProxy(types.ModuleType):
             "zeros": _zeros_like(0.0), "ones": _zeros_like(1.0), "empty": _empty, "array": _array,
             "count_nonzero": _count_nonzero, "gradient": _gradient, "mean": _mean,
             "any": _any, "all": _all, "isnan": _isnan, "around": _around, "round": _around,
-            "median": _median,
+            "median": _median, "max": _max, "amax": _max,
         }
         self.__dict__["linalg"] = _LinalgProxy()
         self.__dict__["_wrapped"] = {}
